@@ -342,8 +342,8 @@ def check_summary(text, m):
 # ---------------------------------------------------------------------------
 # real suites and testtools.run
 
-KINDS = ("success", "failure", "error", "skip", "xfail", "uxsuccess", "double", "subfail")
-KIND_BAD = ("failure", "error", "uxsuccess", "double", "subfail")
+KINDS = ("success", "failure", "error", "skip", "xfail", "uxsuccess", "double", "subfail", "barefail")
+KIND_BAD = ("failure", "error", "uxsuccess", "double", "subfail", "barefail")
 RAN = []
 
 
@@ -363,6 +363,15 @@ def make_case(kind, n):
 
         return D("test_it")
 
+    if kind == "barefail":
+        # a failure with nothing attached (a bare 'fail' event replayed from a stream): still a
+        # problem with a section of its own in the summary
+        class B(PlaceHolder):
+            def run(self, result=None):
+                RAN.append(n)
+                return PlaceHolder.run(self, result)
+
+        return B("k%d.barefail" % n, outcome="addFailure")
     if kind == "subfail":
         # plain unittest.TestCase whose only problem is a failing subTest
         class S(unittest.TestCase):
@@ -468,7 +477,7 @@ def check_suites(res, tier):
                         m.counts["addError"] += 1
                         m.bad = True
                         continue
-                    if k == "subfail":
+                    if k in ("subfail", "barefail"):
                         m.counts["addFailure"] += 1
                         m.bad = True
                         continue
